@@ -224,6 +224,52 @@ theorem run_spec (d : Clauses) (es : List Nat) : ∀ (P : List Nat) (k : Nat),
           intro j hj
           rw [← happ]; exact hall (j + 1) (Nat.succ_lt_succ hj)
 
+/-! ### groups without empty `and` have no empty clause -/
+
+theorem distributeC_nonempty (rs cs : Clauses) (hc : ∀ c ∈ cs, c ≠ []) : ∀ x ∈ distributeC rs cs, x ≠ [] := by
+  intro x hx
+  simp only [distributeC, List.mem_flatMap, List.mem_map] at hx
+  obtain ⟨r, _, c, hc', rfl⟩ := hx
+  intro h
+  have := (List.append_eq_nil_iff.1 h).2
+  exact hc c hc' this
+
+mutual
+theorem dnf_nonempty : ∀ g : G, g.noEmptyAnd = true → ∀ c ∈ dnf g, c ≠ []
+  | .atom n, _ => by simp [dnf]
+  | .or gs, h => by
+    simp only [G.noEmptyAnd] at h
+    simp only [dnf]
+    exact dnfOr_nonempty gs h
+  | .and gs, h => by
+    simp only [G.noEmptyAnd, Bool.and_eq_true, Bool.not_eq_true', List.isEmpty_eq_false_iff] at h
+    simp only [dnf]
+    exact dnfAnd_nonempty gs [[]] h.2 (Or.inl h.1)
+theorem dnfOr_nonempty : ∀ gs : List G, G.noEmptyAndAll gs = true → ∀ c ∈ dnfOr gs, c ≠ []
+  | [], _ => by simp [dnfOr]
+  | g :: rest, h => by
+    simp only [G.noEmptyAndAll, Bool.and_eq_true] at h
+    intro c hc
+    simp only [dnfOr, List.mem_append] at hc
+    rcases hc with hc | hc
+    · exact dnf_nonempty g h.1 c hc
+    · exact dnfOr_nonempty rest h.2 c hc
+theorem dnfAnd_nonempty : ∀ (gs : List G) (rs : Clauses), G.noEmptyAndAll gs = true →
+    (gs ≠ [] ∨ ∀ r ∈ rs, r ≠ []) → ∀ c ∈ dnfAnd gs rs, c ≠ []
+  | [], rs, _, h => by
+    rcases h with h | h
+    · exact absurd rfl h
+    · simpa [dnfAnd] using h
+  | g :: rest, rs, hw, _ => by
+    simp only [G.noEmptyAndAll, Bool.and_eq_true] at hw
+    simp only [dnfAnd]
+    exact dnfAnd_nonempty rest _ hw.2 (Or.inr (distributeC_nonempty rs (dnf g) (dnf_nonempty g hw.1)))
+end
+
+theorem toDnf_normalize_nonempty (g : G) (h : g.noEmptyAnd = true) : ∀ c ∈ toDnf (normalize g), c ≠ [] := by
+  rw [normalize_eq, toDnf_ofDnf]
+  exact dnf_nonempty g h
+
 /-! ### small facts used by the property theorems -/
 
 theorem dnfAnd_atoms (c : List Nat) : ∀ r : List Nat, dnfAnd (c.map G.atom) [r] = [r ++ c] := by
